@@ -183,6 +183,8 @@ type OpStore struct {
 	PutErr  func(call int, ops []*operation.AnchoredOperation) error
 	PutLog  [][]*operation.AnchoredOperation
 	putCall int
+	GetErr  func(suffix string) error // fault injection: the read fails (database unreachable)
+	GetHook func()                    // called (without the lock) at the start of every Get: lets a harness widen interleavings
 }
 
 // NewOpStore creates an empty store.
@@ -219,6 +221,14 @@ func (s *OpStore) Set(suffix string, ops []*operation.AnchoredOperation) {
 
 // Get returns fresh copies of the stored operations (in the configured order).
 func (s *OpStore) Get(suffix string) ([]*operation.AnchoredOperation, error) {
+	if s.GetHook != nil {
+		s.GetHook()
+	}
+	if s.GetErr != nil {
+		if err := s.GetErr(suffix); err != nil {
+			return nil, err
+		}
+	}
 	s.mu.Lock()
 	defer s.mu.Unlock()
 	ops, ok := s.ops[suffix]
